@@ -131,9 +131,9 @@ pub fn c12_mutual_body<S: Src>(s: &mut S) {
 }
 
 crate::harnesses! {
-    c12_nesting [7] = c12_nesting_body;
-    c12_clone_drop [7] = c12_clone_drop_body;
+    c12_nesting [5] = c12_nesting_body;
+    c12_clone_drop [5] = c12_clone_drop_body;
 }
 crate::harnesses_stub_caller! {
-    c12_mutual [7] = c12_mutual_body;
+    c12_mutual [5] = c12_mutual_body;
 }
